@@ -5,6 +5,7 @@ package main
 import (
 	"fmt"
 	"strings"
+	"sync"
 	"go/constant"
 	"go/token"
 	"go/types"
@@ -26,7 +27,8 @@ type frame struct {
 	fn        *ssa.Function
 	block     *ssa.BasicBlock
 	prevBlock *ssa.BasicBlock
-	env       map[ssa.Value]Value
+	fi        *funcInfo
+	regs      []Value
 	locals    []Value
 	defers    *deferred
 	result    Value
@@ -49,8 +51,13 @@ func (fr *frame) get(key ssa.Value) Value {
 	case *ssa.Global:
 		return Ptr{obj: fr.r.w.global(key)}
 	}
-	if v, ok := fr.env[key]; ok {
-		return v
+	if i, ok := fr.fi.slots[key]; ok {
+		if v := fr.regs[i]; v != nil {
+			return v
+		}
+		if _, isVoid := key.(*ssa.Call); isVoid {
+			return nil
+		}
 	}
 	panic(engineErr{fmt.Sprintf("get: no value for %T: %v in %s", key, key.Name(), fr.fn)})
 }
@@ -123,20 +130,20 @@ func visitInstr(fr *frame, instr ssa.Instruction) continuation {
 	switch instr := instr.(type) {
 	case *ssa.DebugRef:
 	case *ssa.UnOp:
-		fr.env[instr] = r.unop(fr, instr)
+		fr.set(instr, r.unop(fr, instr))
 	case *ssa.BinOp:
-		fr.env[instr] = r.binop(instr.Op, instr.X.Type(), fr.get(instr.X), fr.get(instr.Y), instr.Y.Type())
+		fr.set(instr, r.binop(instr.Op, instr.X.Type(), fr.get(instr.X), fr.get(instr.Y), instr.Y.Type()))
 	case *ssa.Call:
 		fn, args := r.prepareCall(fr, &instr.Call)
-		fr.env[instr] = r.call(fr, instr.Pos(), fn, args)
+		fr.set(instr, r.call(fr, instr.Pos(), fn, args))
 	case *ssa.ChangeInterface:
-		fr.env[instr] = fr.get(instr.X)
+		fr.set(instr, fr.get(instr.X))
 	case *ssa.ChangeType:
-		fr.env[instr] = fr.get(instr.X)
+		fr.set(instr, fr.get(instr.X))
 	case *ssa.Convert:
-		fr.env[instr] = r.conv(instr.Type(), instr.X.Type(), fr.get(instr.X))
+		fr.set(instr, r.conv(instr.Type(), instr.X.Type(), fr.get(instr.X)))
 	case *ssa.MultiConvert:
-		fr.env[instr] = r.conv(instr.Type(), instr.X.Type(), fr.get(instr.X))
+		fr.set(instr, r.conv(instr.Type(), instr.X.Type(), fr.get(instr.X)))
 	case *ssa.SliceToArrayPointer:
 		s := fr.get(instr.X).(Slice)
 		n := int(instr.Type().Underlying().(*types.Pointer).Elem().Underlying().(*types.Array).Len())
@@ -144,20 +151,20 @@ func visitInstr(fr *frame, instr ssa.Instruction) continuation {
 			r.goPanicRuntime("cannot convert slice with length less than array length")
 		}
 		if s.obj == nil {
-			fr.env[instr] = Ptr{}
+			fr.set(instr, Ptr{})
 		} else {
-			fr.env[instr] = Ptr{obj: s.obj, off: s.off}
+			fr.set(instr, Ptr{obj: s.obj, off: s.off})
 		}
 	case *ssa.MakeInterface:
-		fr.env[instr] = Iface{t: instr.X.Type(), v: fr.get(instr.X)}
+		fr.set(instr, Iface{t: instr.X.Type(), v: fr.get(instr.X)})
 	case *ssa.Extract:
 		if o, isO := fr.get(instr.Tuple).(Opaque); isO {
-			fr.env[instr] = o
+			fr.set(instr, o)
 		} else {
-			fr.env[instr] = fr.get(instr.Tuple).(Tuple)[instr.Index]
+			fr.set(instr, fr.get(instr.Tuple).(Tuple)[instr.Index])
 		}
 	case *ssa.Slice:
-		fr.env[instr] = r.sliceOp(fr, instr)
+		fr.set(instr, r.sliceOp(fr, instr))
 	case *ssa.Return:
 		switch len(instr.Results) {
 		case 0:
@@ -203,22 +210,22 @@ func visitInstr(fr *frame, instr ssa.Instruction) continuation {
 		if n < 0 {
 			r.goPanicRuntime("makechan: size out of range")
 		}
-		fr.env[instr] = r.newChan(n, instr.Type().Underlying().(*types.Chan).Elem())
+		fr.set(instr, r.newChan(n, instr.Type().Underlying().(*types.Chan).Elem()))
 	case *ssa.Alloc:
 		o := r.allocType(instr.Type().Underlying().(*types.Pointer).Elem(), "alloc:"+instr.Name())
 		if !instr.Heap {
 			// locals are re-zeroed each time the Alloc executes; a fresh object has the same effect
 		}
-		fr.env[instr] = Ptr{obj: o}
+		fr.set(instr, Ptr{obj: o})
 	case *ssa.MakeSlice:
-		fr.env[instr] = r.makeSlice(fr, instr)
+		fr.set(instr, r.makeSlice(fr, instr))
 	case *ssa.MakeMap:
 		mt := instr.Type().Underlying().(*types.Map)
-		fr.env[instr] = r.newMap(mt.Key(), mt.Elem())
+		fr.set(instr, r.newMap(mt.Key(), mt.Elem()))
 	case *ssa.Range:
-		fr.env[instr] = r.rangeIter(fr.get(instr.X), instr.X.Type())
+		fr.set(instr, r.rangeIter(fr.get(instr.X), instr.X.Type()))
 	case *ssa.Next:
-		fr.env[instr] = r.iterNext(fr, fr.get(instr.Iter).(*iter), instr)
+		fr.set(instr, r.iterNext(fr, fr.get(instr.Iter).(*iter), instr))
 	case *ssa.FieldAddr:
 		p := fr.get(instr.X).(Ptr)
 		if p.obj == nil {
@@ -227,38 +234,38 @@ func visitInstr(fr *frame, instr ssa.Instruction) continuation {
 		st := instr.X.Type().Underlying().(*types.Pointer).Elem()
 		q := p
 		q.off += fieldOff(st, instr.Field)
-		fr.env[instr] = q
+		fr.set(instr, q)
 	case *ssa.Field:
 		a := fr.get(instr.X).(Agg)
 		st := instr.X.Type()
 		off := fieldOff(st, instr.Field)
 		ft := st.Underlying().(*types.Struct).Field(instr.Field).Type()
 		if isAgg(ft) {
-			fr.env[instr] = Agg(a[off : off+ncells(ft)])
+			fr.set(instr, Agg(a[off : off+ncells(ft)]))
 		} else {
-			fr.env[instr] = a[off]
+			fr.set(instr, a[off])
 		}
 	case *ssa.IndexAddr:
-		fr.env[instr] = r.indexAddr(fr, instr)
+		fr.set(instr, r.indexAddr(fr, instr))
 	case *ssa.Index:
-		fr.env[instr] = r.indexOp(fr, instr)
+		fr.set(instr, r.indexOp(fr, instr))
 	case *ssa.Lookup:
-		fr.env[instr] = r.mapLookup(fr.get(instr.X).(*MapObj), fr.get(instr.Index), instr.X.Type().Underlying().(*types.Map), instr.CommaOk)
+		fr.set(instr, r.mapLookup(fr.get(instr.X).(*MapObj), fr.get(instr.Index), instr.X.Type().Underlying().(*types.Map), instr.CommaOk))
 	case *ssa.MapUpdate:
 		m := fr.get(instr.Map).(*MapObj)
 		r.mapUpdate(m, fr.get(instr.Key), fr.get(instr.Value))
 	case *ssa.TypeAssert:
-		fr.env[instr] = r.typeAssert(instr, fr.get(instr.X).(Iface))
+		fr.set(instr, r.typeAssert(instr, fr.get(instr.X).(Iface)))
 	case *ssa.MakeClosure:
 		var bindings []Value
 		for _, b := range instr.Bindings {
 			bindings = append(bindings, fr.get(b))
 		}
-		fr.env[instr] = &Closure{fn: instr.Fn.(*ssa.Function), env: bindings}
+		fr.set(instr, &Closure{fn: instr.Fn.(*ssa.Function), env: bindings})
 	case *ssa.Phi:
 		panic(engineErr{"unexpected phi"})
 	case *ssa.Select:
-		fr.env[instr] = r.selectOp(fr, instr)
+		fr.set(instr, r.selectOp(fr, instr))
 	default:
 		r.unsupported("instruction %T", instr)
 	}
@@ -321,7 +328,8 @@ func (r *Run) callSSA(caller *frame, fn *ssa.Function, args []Value, env []Value
 		return r.opaqueResult(fn, "no body: "+name)
 	}
 	r.w.noteFunc(fn)
-	fr := &frame{r: r, caller: caller, fn: fn, env: make(map[ssa.Value]Value, 16)}
+	fi := funcInfoFor(fn)
+	fr := &frame{r: r, caller: caller, fn: fn, fi: fi, regs: make([]Value, fi.n)}
 	if caller != nil {
 		fr.g = caller.g
 		fr.depth = caller.depth + 1
@@ -332,10 +340,10 @@ func (r *Run) callSSA(caller *frame, fn *ssa.Function, args []Value, env []Value
 		fr.g = r.curG()
 	}
 	for i, p := range fn.Params {
-		fr.env[p] = args[i]
+		fr.set(p, args[i])
 	}
 	for i, fv := range fn.FreeVars {
-		fr.env[fv] = env[i]
+		fr.set(fv, env[i])
 	}
 	fr.block = fn.Blocks[0]
 	for fr.block != nil {
@@ -429,7 +437,7 @@ func executePhis(fr *frame) []ssa.Instruction {
 		}
 	}
 	for i, v := range nexts {
-		fr.env[fr.block.Instrs[i].(*ssa.Phi)] = v
+		fr.set(fr.block.Instrs[i].(*ssa.Phi), v)
 	}
 	return fr.block.Instrs[firstNonPhi:]
 }
@@ -798,4 +806,44 @@ func opaquePkg(fn *ssa.Function) bool {
 		return false
 	}
 	return opaquePkgs[fn.Pkg.Pkg.Path()]
+}
+
+// funcInfo: register slots of a function's SSA values (computed once per function, shared by all workers).
+type funcInfo struct {
+	slots map[ssa.Value]int
+	n     int
+}
+
+var funcInfos sync.Map // *ssa.Function -> *funcInfo
+
+func funcInfoFor(fn *ssa.Function) *funcInfo {
+	if fi, ok := funcInfos.Load(fn); ok {
+		return fi.(*funcInfo)
+	}
+	fi := &funcInfo{slots: map[ssa.Value]int{}}
+	add := func(v ssa.Value) {
+		if _, ok := fi.slots[v]; !ok {
+			fi.slots[v] = fi.n
+			fi.n++
+		}
+	}
+	for _, p := range fn.Params {
+		add(p)
+	}
+	for _, fv := range fn.FreeVars {
+		add(fv)
+	}
+	for _, b := range fn.Blocks {
+		for _, ins := range b.Instrs {
+			if v, ok := ins.(ssa.Value); ok {
+				add(v)
+			}
+		}
+	}
+	funcInfos.Store(fn, fi)
+	return fi
+}
+
+func (fr *frame) set(k ssa.Value, v Value) {
+	fr.regs[fr.fi.slots[k]] = v
 }
